@@ -40,6 +40,42 @@ class PolarizationState:
             self.Ex /= mag
             self.Ey /= mag
 
+    def to_dict(self):
+        """
+        Returns a dictionary representation of the polarization state.
+
+        Returns:
+            dict: The dictionary representation of the polarization state.
+        """
+        return {
+            'is_polarized': self.is_polarized,
+            'Ex': self.Ex,
+            'Ey': self.Ey,
+            'phase_x': self.phase_x,
+            'phase_y': self.phase_y
+        }
+
+    @classmethod
+    def from_dict(cls, data):
+        """
+        Creates a polarization state from a dictionary representation. The
+        stored field components are already normalized and are restored
+        as they are.
+
+        Args:
+            data (dict): The dictionary representation of the state.
+
+        Returns:
+            PolarizationState: The polarization state.
+        """
+        state = cls.__new__(cls)
+        state.is_polarized = data['is_polarized']
+        state.Ex = data['Ex']
+        state.Ey = data['Ey']
+        state.phase_x = data['phase_x']
+        state.phase_y = data['phase_y']
+        return state
+
     def __str__(self):
         """
         Returns a string representation of the polarization state.
